@@ -234,6 +234,7 @@ def build(dag, ghosts=(), trees=None, fmt="2a", store=None, path="b", shared=Fal
         store = new_store()
         store.logging = False
     ghosts = frozenset(ghosts)
+    ref = Ref(dag, ghosts)
     if shared:
         from breezy import controldir
         from breezy.controldir import ControlDir
@@ -259,6 +260,11 @@ def build(dag, ghosts=(), trees=None, fmt="2a", store=None, path="b", shared=Fal
                 tree.commit("commit %s" % rid(i).decode(), rev_id=rid(i), timestamp=1_000_000_000.0 + i, timezone=0,
                             committer="Committer <c@example.com>", allow_pointless=True)
             continue
+        if pids and b.last_revision() != pids[0]:
+            # move the branch to the left-hand parent ourselves (world.commit_spec would ask breezy to
+            # compute the revno, which it refuses when the left-hand history ends in a ghost)
+            with b.lock_write():
+                b.set_last_revision_info(len(ref.lefthand(ps[0])), pids[0])
         mw.commit_spec(b, rid(i), pids, (trees or {}).get(i, {}), timestamp=1_000_000_000.0 + i)
     return store, store.url + path + "/"
 
